@@ -406,6 +406,28 @@ static void dump(Work & w, const char * path)
   if (!f) {std::perror(path); std::exit(3);}
   std::fputs(w.resetLine.c_str(), f);
   // calls still in flight when the writer finished are complete (threads were joined)
+  // A state-preserving call that stayed open while more than 200 state-changing calls were invoked (its thread was descheduled) is
+  // left out, like the thinned ones: the set of states it may have observed would be that large.
+  {
+    std::vector<long long> openAt(w.nthreads, -1), mutAtInv(w.nthreads, 0);
+    std::vector<char> drop(all.size(), 0);
+    long long mutators = 0;
+    auto changes = [](int m) {return m == STORE || m == CONSUME || m == UPDATE || m == EVALUATE || m == TIMEOUT || m == STAMP || m == HB || m == RESET;};
+    for (size_t i = 0; i < all.size(); ++i) {
+      const Rec & r = all[i];
+      if (r.type == 0) {
+        if (changes(r.m)) {++mutators;} else {openAt[r.t] = (long long)i; mutAtInv[r.t] = mutators;}
+      } else if (r.type == 3 && openAt[r.t] >= 0) {
+        if (mutators - mutAtInv[r.t] > 200) {
+          for (size_t j = (size_t)openAt[r.t]; j <= i; ++j) {if (all[j].t == r.t) {drop[j] = 1;}}
+        }
+        openAt[r.t] = -1;
+      }
+    }
+    std::vector<Rec> kept;
+    for (size_t i = 0; i < all.size(); ++i) {if (!drop[i]) {kept.push_back(all[i]);}}
+    all.swap(kept);
+  }
   for (auto & r : all) {
     if (r.type == 0) {std::fprintf(f, "{\"e\":\"inv\",\"t\":%d,\"m\":\"%s\",\"arg\":%lld,\"vb\":[%lld,%lld,%lld]}\n", r.t, MN[r.m], r.a, r.b, r.c, r.d);}
     else if (r.type == 1) {std::fprintf(f, "{\"e\":\"lock\",\"t\":%d,\"mx\":%lld}\n", r.t, r.a);}
